@@ -19,6 +19,14 @@ pub const F_L: u128 = B::new().digit_separator(sep()).leading_digit_separator(tr
 pub const F_T: u128 = B::new().digit_separator(sep()).trailing_digit_separator(true).build_strict();
 pub const F_ILT: u128 = B::new().digit_separator(sep()).internal_digit_separator(true).leading_digit_separator(true).trailing_digit_separator(true).build_strict();
 pub const F_ALL: u128 = B::new().digit_separator(sep()).digit_separator_flags(true).build_strict();
+pub const F_LTC: u128 = B::new().digit_separator(sep()).leading_digit_separator(true).trailing_digit_separator(true).consecutive_digit_separator(true).build_strict();
+pub const F_ILC: u128 = B::new().digit_separator(sep()).internal_digit_separator(true).leading_digit_separator(true).consecutive_digit_separator(true).build_strict();
+pub const F_ITC: u128 = B::new().digit_separator(sep()).internal_digit_separator(true).trailing_digit_separator(true).consecutive_digit_separator(true).build_strict();
+pub const F_LC: u128 = B::new().digit_separator(sep()).leading_digit_separator(true).consecutive_digit_separator(true).build_strict();
+pub const F_TC: u128 = B::new().digit_separator(sep()).trailing_digit_separator(true).consecutive_digit_separator(true).build_strict();
+pub const F_IL: u128 = B::new().digit_separator(sep()).internal_digit_separator(true).leading_digit_separator(true).build_strict();
+pub const F_IT: u128 = B::new().digit_separator(sep()).internal_digit_separator(true).trailing_digit_separator(true).build_strict();
+pub const F_LT: u128 = B::new().digit_separator(sep()).leading_digit_separator(true).trailing_digit_separator(true).build_strict();
 pub const F_INT_I: u128 = B::new().digit_separator(sep()).integer_internal_digit_separator(true).build_strict();
 pub const F_FRAC_I: u128 = B::new().digit_separator(sep()).fraction_internal_digit_separator(true).build_strict();
 pub const F_EXP_I: u128 = B::new().digit_separator(sep()).exponent_internal_digit_separator(true).build_strict();
@@ -38,6 +46,63 @@ pub fn cmp_sep_r2<const F: u128>(s: &[u8]) -> Result<(), &'static str> {
         (Err(_), Err(_)) => Ok(()),
         _ => Err("R2: accept/reject differs from the separator-free format"),
     }
+}
+
+/// flags (internal, leading, trailing, consecutive) of a component: 0 integer, 1 fraction, 2 exponent (documented bit layout)
+fn comp_flags(f: u128, comp: u32) -> (bool, bool, bool, bool) {
+    let b = |i: u32| (f >> i) & 1 == 1;
+    (b(32 + comp), b(35 + comp), b(38 + comp), b(41 + comp))
+}
+
+/// Is the digit/separator string `w` a valid component? Returns (valid, digit_count, has_separator).
+/// Grammar (docs/DigitSeparators.md): a run before the first digit is leading, after the last digit trailing, between
+/// digits internal; a run longer than one additionally needs the consecutive flag.
+fn comp_ok(w: &[u8], f: u128, comp: u32) -> (bool, usize, bool) {
+    let (i_, l_, t_, c_) = comp_flags(f, comp);
+    let mut ndig = 0usize; let mut has_sep = false;
+    let mut k = 0;
+    while k < w.len() { if w[k] == SEP { has_sep = true; } else { ndig += 1; } k += 1; }
+    if ndig == 0 { return (!has_sep, 0, has_sep); }
+    let mut ok = true;
+    let mut seen_digit = false;
+    let mut k = 0;
+    while k < w.len() {
+        if w[k] != SEP { seen_digit = true; k += 1; continue; }
+        let start = k;
+        while k < w.len() && w[k] == SEP { k += 1; }
+        let run = k - start;
+        let at_end = k == w.len();
+        let allowed = if !seen_digit { l_ } else if at_end { t_ } else { i_ };
+        if !allowed || (run > 1 && !c_) { ok = false; }
+    }
+    (ok, ndig, has_sep)
+}
+
+/// R3: the complete tokenizer accepts a decimal float string exactly when every component is a valid
+/// digit/separator string for its flags (claim restricted to components that contain a digit).
+pub fn cmp_sep_grammar<const F: u128>(s: &[u8]) -> Result<(), &'static str> {
+    if s.is_empty() { return Ok(()); }
+    // decompose: INT [. FRAC] [e [sign] EXP] ; anything else => no claim from this relation
+    let mut i = 0;
+    while i < s.len() && ((s[i] >= b'0' && s[i] <= b'9') || s[i] == SEP) { i += 1; }
+    let int_end = i;
+    let mut frac = (i, i); let mut has_dot = false;
+    if i < s.len() && s[i] == b'.' { has_dot = true; i += 1; let st = i; while i < s.len() && ((s[i] >= b'0' && s[i] <= b'9') || s[i] == SEP) { i += 1; } frac = (st, i); }
+    let mut exp = (i, i); let mut has_exp = false;
+    if i < s.len() && (s[i] == b'e' || s[i] == b'E') { has_exp = true; i += 1; if i < s.len() && (s[i] == b'+' || s[i] == b'-') { i += 1; } let st = i; while i < s.len() && ((s[i] >= b'0' && s[i] <= b'9') || s[i] == SEP) { i += 1; } exp = (st, i); }
+    if i != s.len() { return Ok(()); }
+    let (ok_i, nd_i, sep_i) = comp_ok(&s[..int_end], F, 0);
+    let (ok_f, nd_f, sep_f) = comp_ok(&s[frac.0..frac.1], F, 1);
+    let (ok_e, nd_e, sep_e) = comp_ok(&s[exp.0..exp.1], F, 2);
+    // no claim for separator-only components
+    if (sep_i && nd_i == 0) || (sep_f && nd_f == 0) || (sep_e && nd_e == 0) { return Ok(()); }
+    let _ = has_dot;
+    let want = ok_i && ok_f && ok_e && nd_i + nd_f > 0 && (!has_exp || nd_e > 0);
+    let opts = Options::new();
+    let got = parse_complete_number::<F>(s.bytes::<F>(), false, &opts).is_ok();
+    if got && !want { return Err("R3: accepted although a separator stands in a position the flags do not enable"); }
+    if !got && want { return Err("R3: rejected although every separator stands in an enabled position"); }
+    Ok(())
 }
 
 pub fn strip(s: &[u8], out: &mut [u8; 32]) -> usize {
@@ -103,7 +168,459 @@ macro_rules! sep_body {
     }};
 }
 
+/// C11 over separator formats: complete(s) = Ok(v) <=> partial(s) = Ok((v, len)); partial(s) = Ok((v, n)), n > 0 => complete(s[..n]) = Ok(v).
+pub fn cmp_sep_partial_complete<const F: u128>(s: &[u8]) -> Result<(), &'static str> {
+    let opts = Options::new();
+    let rp = parse_partial_number::<F>(s.bytes::<F>(), false, &opts);
+    let rc = parse_complete_number::<F>(s.bytes::<F>(), false, &opts);
+    let same = |a: &lexical_parse_float::number::Number, b: &lexical_parse_float::number::Number| a.mantissa == b.mantissa && a.exponent == b.exponent && a.many_digits == b.many_digits;
+    match (&rc, &rp) {
+        (Ok(c), Ok((p, n))) => { if *n != s.len() || !same(c, p) { return Err("complete Ok(v) => partial Ok((v, len))"); } },
+        (Ok(_), Err(_)) => return Err("complete Ok(v) => partial Ok"),
+        (Err(_), Ok((_, n))) => { if *n == s.len() { return Err("partial Ok((v, len)) => complete Ok(v)"); } },
+        (Err(_), Err(_)) => {},
+    }
+    if let Ok((p, n)) = &rp {
+        if *n > s.len() { return Err("count <= len"); }
+        if *n > 0 {
+            match parse_complete_number::<F>(s[..*n].bytes::<F>(), false, &opts) {
+                Ok(c) => if !same(&c, p) { return Err("partial Ok((v, n)) => complete(prefix n) has the same value") },
+                Err(_) => return Err("partial Ok((v, n)) => complete(prefix n) is Ok"),
+            }
+        }
+    }
+    Ok(())
+}
+
+macro_rules! pc_body {
+    ($F:expr, $L:expr) => {{
+        const F: u128 = $F;
+        let bytes: [u8; $L] = any();
+        let len: usize = any();
+        assume(len <= $L);
+        let mut i = 0;
+        while i < $L {
+            let c = bytes[i];
+            assume(c == b'0' || c == b'7' || c == b'_' || c == b'.' || c == b'e' || c == b'x');
+            i += 1;
+        }
+        let r = cmp_sep_partial_complete::<F>(&bytes[..len]);
+        vcheck!(r.is_ok(), "partial and complete tokenizers agree under a digit-separator format");
+        cover(len == $L);
+    }};
+}
+
+macro_rules! grammar_body {
+    ($F:expr, $L:expr) => {{
+        const F: u128 = $F;
+        let bytes: [u8; $L] = any();
+        let len: usize = any();
+        assume(len <= $L);
+        let mut i = 0;
+        while i < $L {
+            let c = bytes[i];
+            assume(c == b'0' || c == b'7' || c == b'_' || c == b'.' || c == b'e');
+            i += 1;
+        }
+        let r = cmp_sep_grammar::<F>(&bytes[..len]);
+        vcheck!(r.is_ok(), "accepted <=> every separator run stands in a position (leading/internal/trailing, single/consecutive) the flags enable");
+        cover(len == $L);
+    }};
+}
+
 crate::harnesses! {
+    /// partial vs complete tokenizer, flags LTC: strings len <= 4 over {0 7 _ . e x}.
+    /// @prop C11 C13
+    /// @feat format radix_format
+    /// @bound format F_LTC; input length <= 4 over {0 7 _ . e x}
+    /// @fn lexical-parse-float::parse::{parse_partial_number, parse_complete_number}
+    /// @fn lexical-util::skip::is_ltc!
+    /// @timeout 1200
+    #[cfg_attr(kani, kani::unwind(7))]
+    fn sep_partial_complete_ltc() { pc_body!(F_LTC, 4) }
+
+    /// partial vs complete tokenizer, flags LTC: strings len <= 5 over {0 7 _ . e x}.
+    /// @prop C11 C13
+    /// @tier thorough
+    /// @feat format radix_format
+    /// @bound format F_LTC; input length <= 5 over {0 7 _ . e x}
+    /// @fn lexical-parse-float::parse::{parse_partial_number, parse_complete_number}
+    /// @fn lexical-util::skip::is_ltc!
+    /// @timeout 3600
+    #[cfg_attr(kani, kani::unwind(8))]
+    fn sep_partial_complete_ltc_len5() { pc_body!(F_LTC, 5) }
+
+    /// partial vs complete tokenizer, flags ITC: strings len <= 4 over {0 7 _ . e x}.
+    /// @prop C11 C13
+    /// @feat format radix_format
+    /// @bound format F_ITC; input length <= 4 over {0 7 _ . e x}
+    /// @fn lexical-parse-float::parse::{parse_partial_number, parse_complete_number}
+    /// @fn lexical-util::skip::is_itc!
+    /// @timeout 1200
+    #[cfg_attr(kani, kani::unwind(7))]
+    fn sep_partial_complete_itc() { pc_body!(F_ITC, 4) }
+
+    /// partial vs complete tokenizer, flags ITC: strings len <= 5 over {0 7 _ . e x}.
+    /// @prop C11 C13
+    /// @tier thorough
+    /// @feat format radix_format
+    /// @bound format F_ITC; input length <= 5 over {0 7 _ . e x}
+    /// @fn lexical-parse-float::parse::{parse_partial_number, parse_complete_number}
+    /// @fn lexical-util::skip::is_itc!
+    /// @timeout 3600
+    #[cfg_attr(kani, kani::unwind(8))]
+    fn sep_partial_complete_itc_len5() { pc_body!(F_ITC, 5) }
+
+    /// partial vs complete tokenizer, flags ILC: strings len <= 4 over {0 7 _ . e x}.
+    /// @prop C11 C13
+    /// @feat format radix_format
+    /// @bound format F_ILC; input length <= 4 over {0 7 _ . e x}
+    /// @fn lexical-parse-float::parse::{parse_partial_number, parse_complete_number}
+    /// @fn lexical-util::skip::is_ilc!
+    /// @timeout 1200
+    #[cfg_attr(kani, kani::unwind(7))]
+    fn sep_partial_complete_ilc() { pc_body!(F_ILC, 4) }
+
+    /// partial vs complete tokenizer, flags ILC: strings len <= 5 over {0 7 _ . e x}.
+    /// @prop C11 C13
+    /// @tier thorough
+    /// @feat format radix_format
+    /// @bound format F_ILC; input length <= 5 over {0 7 _ . e x}
+    /// @fn lexical-parse-float::parse::{parse_partial_number, parse_complete_number}
+    /// @fn lexical-util::skip::is_ilc!
+    /// @timeout 3600
+    #[cfg_attr(kani, kani::unwind(8))]
+    fn sep_partial_complete_ilc_len5() { pc_body!(F_ILC, 5) }
+
+    /// partial vs complete tokenizer, flags ILTC: strings len <= 4 over {0 7 _ . e x}.
+    /// @prop C11 C13
+    /// @feat format radix_format
+    /// @bound format F_ALL; input length <= 4 over {0 7 _ . e x}
+    /// @fn lexical-parse-float::parse::{parse_partial_number, parse_complete_number}
+    /// @fn lexical-util::skip::is_iltc!
+    /// @timeout 1200
+    #[cfg_attr(kani, kani::unwind(7))]
+    fn sep_partial_complete_iltc() { pc_body!(F_ALL, 4) }
+
+    /// partial vs complete tokenizer, flags ILTC: strings len <= 5 over {0 7 _ . e x}.
+    /// @prop C11 C13
+    /// @tier thorough
+    /// @feat format radix_format
+    /// @bound format F_ALL; input length <= 5 over {0 7 _ . e x}
+    /// @fn lexical-parse-float::parse::{parse_partial_number, parse_complete_number}
+    /// @fn lexical-util::skip::is_iltc!
+    /// @timeout 3600
+    #[cfg_attr(kani, kani::unwind(8))]
+    fn sep_partial_complete_iltc_len5() { pc_body!(F_ALL, 5) }
+
+    /// partial vs complete tokenizer, flags ILT: strings len <= 4 over {0 7 _ . e x}.
+    /// @prop C11 C13
+    /// @feat format radix_format
+    /// @bound format F_ILT; input length <= 4 over {0 7 _ . e x}
+    /// @fn lexical-parse-float::parse::{parse_partial_number, parse_complete_number}
+    /// @fn lexical-util::skip::is_ilt!
+    /// @timeout 1200
+    #[cfg_attr(kani, kani::unwind(7))]
+    fn sep_partial_complete_ilt() { pc_body!(F_ILT, 4) }
+
+    /// partial vs complete tokenizer, flags ILT: strings len <= 5 over {0 7 _ . e x}.
+    /// @prop C11 C13
+    /// @tier thorough
+    /// @feat format radix_format
+    /// @bound format F_ILT; input length <= 5 over {0 7 _ . e x}
+    /// @fn lexical-parse-float::parse::{parse_partial_number, parse_complete_number}
+    /// @fn lexical-util::skip::is_ilt!
+    /// @timeout 3600
+    #[cfg_attr(kani, kani::unwind(8))]
+    fn sep_partial_complete_ilt_len5() { pc_body!(F_ILT, 5) }
+
+    /// partial vs complete tokenizer, flags LT: strings len <= 4 over {0 7 _ . e x}.
+    /// @prop C11 C13
+    /// @feat format radix_format
+    /// @bound format F_LT; input length <= 4 over {0 7 _ . e x}
+    /// @fn lexical-parse-float::parse::{parse_partial_number, parse_complete_number}
+    /// @fn lexical-util::skip::is_lt!
+    /// @timeout 1200
+    #[cfg_attr(kani, kani::unwind(7))]
+    fn sep_partial_complete_lt() { pc_body!(F_LT, 4) }
+
+    /// partial vs complete tokenizer, flags LT: strings len <= 5 over {0 7 _ . e x}.
+    /// @prop C11 C13
+    /// @tier thorough
+    /// @feat format radix_format
+    /// @bound format F_LT; input length <= 5 over {0 7 _ . e x}
+    /// @fn lexical-parse-float::parse::{parse_partial_number, parse_complete_number}
+    /// @fn lexical-util::skip::is_lt!
+    /// @timeout 3600
+    #[cfg_attr(kani, kani::unwind(8))]
+    fn sep_partial_complete_lt_len5() { pc_body!(F_LT, 5) }
+
+    /// separator-position grammar, flags I (all components): strings len <= 4 over {0 7 _ . e}.
+    /// @prop C13
+    /// @feat format radix_format
+    /// @bound format F_I; input length <= 4 over {0 7 _ . e}
+    /// @fn lexical-util::skip::is_i! (@first/@internal) via peek_1/peek_n and lexical-parse-float::parse::parse_number
+    /// @timeout 1200
+    #[cfg_attr(kani, kani::unwind(7))]
+    fn sep_grammar_i() { grammar_body!(F_I, 4) }
+
+    /// separator-position grammar, flags I (all components): strings len <= 5 over {0 7 _ . e}.
+    /// @prop C13
+    /// @tier thorough
+    /// @feat format radix_format
+    /// @bound format F_I; input length <= 5 over {0 7 _ . e}
+    /// @fn lexical-util::skip::is_i! (@first/@internal) via peek_1/peek_n and lexical-parse-float::parse::parse_number
+    /// @timeout 3600
+    #[cfg_attr(kani, kani::unwind(8))]
+    fn sep_grammar_i_len5() { grammar_body!(F_I, 5) }
+
+    /// separator-position grammar, flags IC (all components): strings len <= 4 over {0 7 _ . e}.
+    /// @prop C13
+    /// @feat format radix_format
+    /// @bound format F_IC; input length <= 4 over {0 7 _ . e}
+    /// @fn lexical-util::skip::is_ic! (@first/@internal) via peek_1/peek_n and lexical-parse-float::parse::parse_number
+    /// @timeout 1200
+    #[cfg_attr(kani, kani::unwind(7))]
+    fn sep_grammar_ic() { grammar_body!(F_IC, 4) }
+
+    /// separator-position grammar, flags IC (all components): strings len <= 5 over {0 7 _ . e}.
+    /// @prop C13
+    /// @tier thorough
+    /// @feat format radix_format
+    /// @bound format F_IC; input length <= 5 over {0 7 _ . e}
+    /// @fn lexical-util::skip::is_ic! (@first/@internal) via peek_1/peek_n and lexical-parse-float::parse::parse_number
+    /// @timeout 3600
+    #[cfg_attr(kani, kani::unwind(8))]
+    fn sep_grammar_ic_len5() { grammar_body!(F_IC, 5) }
+
+    /// separator-position grammar, flags L (all components): strings len <= 4 over {0 7 _ . e}.
+    /// @prop C13
+    /// @feat format radix_format
+    /// @bound format F_L; input length <= 4 over {0 7 _ . e}
+    /// @fn lexical-util::skip::is_l! (@first/@internal) via peek_1/peek_n and lexical-parse-float::parse::parse_number
+    /// @timeout 1200
+    #[cfg_attr(kani, kani::unwind(7))]
+    fn sep_grammar_l() { grammar_body!(F_L, 4) }
+
+    /// separator-position grammar, flags L (all components): strings len <= 5 over {0 7 _ . e}.
+    /// @prop C13
+    /// @tier thorough
+    /// @feat format radix_format
+    /// @bound format F_L; input length <= 5 over {0 7 _ . e}
+    /// @fn lexical-util::skip::is_l! (@first/@internal) via peek_1/peek_n and lexical-parse-float::parse::parse_number
+    /// @timeout 3600
+    #[cfg_attr(kani, kani::unwind(8))]
+    fn sep_grammar_l_len5() { grammar_body!(F_L, 5) }
+
+    /// separator-position grammar, flags LC (all components): strings len <= 4 over {0 7 _ . e}.
+    /// @prop C13
+    /// @feat format radix_format
+    /// @bound format F_LC; input length <= 4 over {0 7 _ . e}
+    /// @fn lexical-util::skip::is_lc! (@first/@internal) via peek_1/peek_n and lexical-parse-float::parse::parse_number
+    /// @timeout 1200
+    #[cfg_attr(kani, kani::unwind(7))]
+    fn sep_grammar_lc() { grammar_body!(F_LC, 4) }
+
+    /// separator-position grammar, flags LC (all components): strings len <= 5 over {0 7 _ . e}.
+    /// @prop C13
+    /// @tier thorough
+    /// @feat format radix_format
+    /// @bound format F_LC; input length <= 5 over {0 7 _ . e}
+    /// @fn lexical-util::skip::is_lc! (@first/@internal) via peek_1/peek_n and lexical-parse-float::parse::parse_number
+    /// @timeout 3600
+    #[cfg_attr(kani, kani::unwind(8))]
+    fn sep_grammar_lc_len5() { grammar_body!(F_LC, 5) }
+
+    /// separator-position grammar, flags T (all components): strings len <= 4 over {0 7 _ . e}.
+    /// @prop C13
+    /// @feat format radix_format
+    /// @bound format F_T; input length <= 4 over {0 7 _ . e}
+    /// @fn lexical-util::skip::is_t! (@first/@internal) via peek_1/peek_n and lexical-parse-float::parse::parse_number
+    /// @timeout 1200
+    #[cfg_attr(kani, kani::unwind(7))]
+    fn sep_grammar_t() { grammar_body!(F_T, 4) }
+
+    /// separator-position grammar, flags T (all components): strings len <= 5 over {0 7 _ . e}.
+    /// @prop C13
+    /// @tier thorough
+    /// @feat format radix_format
+    /// @bound format F_T; input length <= 5 over {0 7 _ . e}
+    /// @fn lexical-util::skip::is_t! (@first/@internal) via peek_1/peek_n and lexical-parse-float::parse::parse_number
+    /// @timeout 3600
+    #[cfg_attr(kani, kani::unwind(8))]
+    fn sep_grammar_t_len5() { grammar_body!(F_T, 5) }
+
+    /// separator-position grammar, flags TC (all components): strings len <= 4 over {0 7 _ . e}.
+    /// @prop C13
+    /// @feat format radix_format
+    /// @bound format F_TC; input length <= 4 over {0 7 _ . e}
+    /// @fn lexical-util::skip::is_tc! (@first/@internal) via peek_1/peek_n and lexical-parse-float::parse::parse_number
+    /// @timeout 1200
+    #[cfg_attr(kani, kani::unwind(7))]
+    fn sep_grammar_tc() { grammar_body!(F_TC, 4) }
+
+    /// separator-position grammar, flags TC (all components): strings len <= 5 over {0 7 _ . e}.
+    /// @prop C13
+    /// @tier thorough
+    /// @feat format radix_format
+    /// @bound format F_TC; input length <= 5 over {0 7 _ . e}
+    /// @fn lexical-util::skip::is_tc! (@first/@internal) via peek_1/peek_n and lexical-parse-float::parse::parse_number
+    /// @timeout 3600
+    #[cfg_attr(kani, kani::unwind(8))]
+    fn sep_grammar_tc_len5() { grammar_body!(F_TC, 5) }
+
+    /// separator-position grammar, flags IL (all components): strings len <= 4 over {0 7 _ . e}.
+    /// @prop C13
+    /// @feat format radix_format
+    /// @bound format F_IL; input length <= 4 over {0 7 _ . e}
+    /// @fn lexical-util::skip::is_il! (@first/@internal) via peek_1/peek_n and lexical-parse-float::parse::parse_number
+    /// @timeout 1200
+    #[cfg_attr(kani, kani::unwind(7))]
+    fn sep_grammar_il() { grammar_body!(F_IL, 4) }
+
+    /// separator-position grammar, flags IL (all components): strings len <= 5 over {0 7 _ . e}.
+    /// @prop C13
+    /// @tier thorough
+    /// @feat format radix_format
+    /// @bound format F_IL; input length <= 5 over {0 7 _ . e}
+    /// @fn lexical-util::skip::is_il! (@first/@internal) via peek_1/peek_n and lexical-parse-float::parse::parse_number
+    /// @timeout 3600
+    #[cfg_attr(kani, kani::unwind(8))]
+    fn sep_grammar_il_len5() { grammar_body!(F_IL, 5) }
+
+    /// separator-position grammar, flags ILC (all components): strings len <= 4 over {0 7 _ . e}.
+    /// @prop C13
+    /// @feat format radix_format
+    /// @bound format F_ILC; input length <= 4 over {0 7 _ . e}
+    /// @fn lexical-util::skip::is_ilc! (@first/@internal) via peek_1/peek_n and lexical-parse-float::parse::parse_number
+    /// @timeout 1200
+    #[cfg_attr(kani, kani::unwind(7))]
+    fn sep_grammar_ilc() { grammar_body!(F_ILC, 4) }
+
+    /// separator-position grammar, flags ILC (all components): strings len <= 5 over {0 7 _ . e}.
+    /// @prop C13
+    /// @tier thorough
+    /// @feat format radix_format
+    /// @bound format F_ILC; input length <= 5 over {0 7 _ . e}
+    /// @fn lexical-util::skip::is_ilc! (@first/@internal) via peek_1/peek_n and lexical-parse-float::parse::parse_number
+    /// @timeout 3600
+    #[cfg_attr(kani, kani::unwind(8))]
+    fn sep_grammar_ilc_len5() { grammar_body!(F_ILC, 5) }
+
+    /// separator-position grammar, flags IT (all components): strings len <= 4 over {0 7 _ . e}.
+    /// @prop C13
+    /// @feat format radix_format
+    /// @bound format F_IT; input length <= 4 over {0 7 _ . e}
+    /// @fn lexical-util::skip::is_it! (@first/@internal) via peek_1/peek_n and lexical-parse-float::parse::parse_number
+    /// @timeout 1200
+    #[cfg_attr(kani, kani::unwind(7))]
+    fn sep_grammar_it() { grammar_body!(F_IT, 4) }
+
+    /// separator-position grammar, flags IT (all components): strings len <= 5 over {0 7 _ . e}.
+    /// @prop C13
+    /// @tier thorough
+    /// @feat format radix_format
+    /// @bound format F_IT; input length <= 5 over {0 7 _ . e}
+    /// @fn lexical-util::skip::is_it! (@first/@internal) via peek_1/peek_n and lexical-parse-float::parse::parse_number
+    /// @timeout 3600
+    #[cfg_attr(kani, kani::unwind(8))]
+    fn sep_grammar_it_len5() { grammar_body!(F_IT, 5) }
+
+    /// separator-position grammar, flags ITC (all components): strings len <= 4 over {0 7 _ . e}.
+    /// @prop C13
+    /// @feat format radix_format
+    /// @bound format F_ITC; input length <= 4 over {0 7 _ . e}
+    /// @fn lexical-util::skip::is_itc! (@first/@internal) via peek_1/peek_n and lexical-parse-float::parse::parse_number
+    /// @timeout 1200
+    #[cfg_attr(kani, kani::unwind(7))]
+    fn sep_grammar_itc() { grammar_body!(F_ITC, 4) }
+
+    /// separator-position grammar, flags ITC (all components): strings len <= 5 over {0 7 _ . e}.
+    /// @prop C13
+    /// @tier thorough
+    /// @feat format radix_format
+    /// @bound format F_ITC; input length <= 5 over {0 7 _ . e}
+    /// @fn lexical-util::skip::is_itc! (@first/@internal) via peek_1/peek_n and lexical-parse-float::parse::parse_number
+    /// @timeout 3600
+    #[cfg_attr(kani, kani::unwind(8))]
+    fn sep_grammar_itc_len5() { grammar_body!(F_ITC, 5) }
+
+    /// separator-position grammar, flags LT (all components): strings len <= 4 over {0 7 _ . e}.
+    /// @prop C13
+    /// @feat format radix_format
+    /// @bound format F_LT; input length <= 4 over {0 7 _ . e}
+    /// @fn lexical-util::skip::is_lt! (@first/@internal) via peek_1/peek_n and lexical-parse-float::parse::parse_number
+    /// @timeout 1200
+    #[cfg_attr(kani, kani::unwind(7))]
+    fn sep_grammar_lt() { grammar_body!(F_LT, 4) }
+
+    /// separator-position grammar, flags LT (all components): strings len <= 5 over {0 7 _ . e}.
+    /// @prop C13
+    /// @tier thorough
+    /// @feat format radix_format
+    /// @bound format F_LT; input length <= 5 over {0 7 _ . e}
+    /// @fn lexical-util::skip::is_lt! (@first/@internal) via peek_1/peek_n and lexical-parse-float::parse::parse_number
+    /// @timeout 3600
+    #[cfg_attr(kani, kani::unwind(8))]
+    fn sep_grammar_lt_len5() { grammar_body!(F_LT, 5) }
+
+    /// separator-position grammar, flags LTC (all components): strings len <= 4 over {0 7 _ . e}.
+    /// @prop C13
+    /// @feat format radix_format
+    /// @bound format F_LTC; input length <= 4 over {0 7 _ . e}
+    /// @fn lexical-util::skip::is_ltc! (@first/@internal) via peek_1/peek_n and lexical-parse-float::parse::parse_number
+    /// @timeout 1200
+    #[cfg_attr(kani, kani::unwind(7))]
+    fn sep_grammar_ltc() { grammar_body!(F_LTC, 4) }
+
+    /// separator-position grammar, flags LTC (all components): strings len <= 5 over {0 7 _ . e}.
+    /// @prop C13
+    /// @tier thorough
+    /// @feat format radix_format
+    /// @bound format F_LTC; input length <= 5 over {0 7 _ . e}
+    /// @fn lexical-util::skip::is_ltc! (@first/@internal) via peek_1/peek_n and lexical-parse-float::parse::parse_number
+    /// @timeout 3600
+    #[cfg_attr(kani, kani::unwind(8))]
+    fn sep_grammar_ltc_len5() { grammar_body!(F_LTC, 5) }
+
+    /// separator-position grammar, flags ILT (all components): strings len <= 4 over {0 7 _ . e}.
+    /// @prop C13
+    /// @feat format radix_format
+    /// @bound format F_ILT; input length <= 4 over {0 7 _ . e}
+    /// @fn lexical-util::skip::is_ilt! (@first/@internal) via peek_1/peek_n and lexical-parse-float::parse::parse_number
+    /// @timeout 1200
+    #[cfg_attr(kani, kani::unwind(7))]
+    fn sep_grammar_ilt() { grammar_body!(F_ILT, 4) }
+
+    /// separator-position grammar, flags ILT (all components): strings len <= 5 over {0 7 _ . e}.
+    /// @prop C13
+    /// @tier thorough
+    /// @feat format radix_format
+    /// @bound format F_ILT; input length <= 5 over {0 7 _ . e}
+    /// @fn lexical-util::skip::is_ilt! (@first/@internal) via peek_1/peek_n and lexical-parse-float::parse::parse_number
+    /// @timeout 3600
+    #[cfg_attr(kani, kani::unwind(8))]
+    fn sep_grammar_ilt_len5() { grammar_body!(F_ILT, 5) }
+
+    /// separator-position grammar, flags ILTC (all components): strings len <= 4 over {0 7 _ . e}.
+    /// @prop C13
+    /// @feat format radix_format
+    /// @bound format F_ALL; input length <= 4 over {0 7 _ . e}
+    /// @fn lexical-util::skip::is_iltc! (@first/@internal) via peek_1/peek_n and lexical-parse-float::parse::parse_number
+    /// @timeout 1200
+    #[cfg_attr(kani, kani::unwind(7))]
+    fn sep_grammar_iltc() { grammar_body!(F_ALL, 4) }
+
+    /// separator-position grammar, flags ILTC (all components): strings len <= 5 over {0 7 _ . e}.
+    /// @prop C13
+    /// @tier thorough
+    /// @feat format radix_format
+    /// @bound format F_ALL; input length <= 5 over {0 7 _ . e}
+    /// @fn lexical-util::skip::is_iltc! (@first/@internal) via peek_1/peek_n and lexical-parse-float::parse::parse_number
+    /// @timeout 3600
+    #[cfg_attr(kani, kani::unwind(8))]
+    fn sep_grammar_iltc_len5() { grammar_body!(F_ALL, 5) }
+
     /// internal separators in all components: strings len <= 6 over {0 1 9 _ . e + - a}.
     /// @prop C13 C10
     /// @feat format radix_format
